@@ -93,6 +93,14 @@ def _preamble(M, P, win):
     the same whatever this worker process ran before (so a violation reproduces when the case is replayed alone):
     a decoy object with the same (M, P) but ANOTHER window streams one chunk first, and stays alive during the case."""
     other = 'boxcar' if win != 'boxcar' else 'hamming'
+    # also objects with the same coefficient count M*P but a different taps/branches split and the SAME window
+    # (something memoised on (M*P, window) instead of (M, P, window) is then poisoned deterministically)
+    for (m2, p2) in ((2 * M, P // 2), (M // 2, 2 * P), (M * P // 2, 2), (1, M * P)):
+        if m2 >= 1 and p2 >= 2 and p2 % 2 == 0 and m2 * p2 == M * P and (m2, p2) != (M, P):
+            try:
+                _new(m2, p2, win)
+            except Exception:
+                pass
     try:
         decoy = _new(M, P, other)
         decoy.channelize(np.cos(0.7 * np.arange(2 * M * P)) + 0.25, cache=True)
